@@ -40,14 +40,21 @@ H = {
 class FieldObj:
     """opaque ScalarField / VectorField: `apply_to_basis()` yields the given value (a term, or a component list of any length)"""
 
-    def __init__(self, system, value):
+    def __init__(self, system, value, stored: str = "callable"):
         self.system, self.value = system, value
+        self.stored = stored  # how the field keeps its point function: a callable (lambda / partial) or a stored value (expression / component list)
 
 
 class OperatorReader(PyReader):
+    field_classes: dict = {}  # "ScalarField" / "VectorField" -> ClassDef (set by check)
 
     def hook_call(self, n, env, fns):
         f = dotted(n.func) or ""
+        if f == "callable" and len(n.args) == 1:
+            v = self.ev(n.args[0], env, fns)
+            if isinstance(v, tuple) and v and v[0] == "point-function":
+                return v[1] == "callable"
+            self.fail(n, "callable() of an unknown object")
         if isinstance(n.func, ast.Attribute):
             if n.func.attr == "apply_to_basis" and not n.args:
                 fld = self.ev(n.func.value, env, fns)
@@ -71,18 +78,32 @@ class OperatorReader(PyReader):
                     base = self.ev(n.value, env, fns)
                 except AnalysisError:
                     base = None
-            if isinstance(base, FieldObj) and n.attr == "coordinate_system":
+            if isinstance(base, FieldObj) and n.attr in ("coordinate_system", "_coordinate_system"):
                 return base.system
+            if isinstance(base, FieldObj) and n.attr in ("_point_function", "field_function"):
+                return ("point-function", base.stored)
+            if isinstance(base, FieldObj):
+                # any other attribute: a property of the field class, evaluated on this field
+                cls = self.field_classes.get("VectorField" if isinstance(base.value, list) else "ScalarField")
+                prop = next((m_ for m_ in (cls.body if cls is not None else []) if isinstance(m_, ast.FunctionDef) and m_.name == n.attr
+                             and any(dotted(d) == "property" for d in m_.decorator_list)), None)
+                if prop is not None:
+                    key = f"__property__{n.attr}"
+                    self.functions[key] = prop
+                    return self.call(key, [base])
             if isinstance(base, Sys) and n.attr == "coord_system":
                 return base
         return super().ev(n, env, fns)
+
+
+STORED = ["callable"]  # how the fields under evaluation keep their point function (set by check for each pass)
 
 
 def apply_operator(mod_tree: ast.Module, fname: str, system: str, value):
     """Abstract evaluation of one operator of operators.py on a field whose basis value is `value`."""
     R = OperatorReader(mod_tree, where=f"{fname}/{system}")
     try:
-        res = R.call(fname, [FieldObj(Sys("cs" + system, system), value)])
+        res = R.call(fname, [FieldObj(Sys("cs" + system, system), value, STORED[0])])
     except Raised as r:
         return r
     if isinstance(res, VVal):
@@ -134,73 +155,80 @@ def check(run: Run) -> None:
     def pad(v: list) -> list:
         return list(v) + [num(0)] * (3 - len(v))
 
-    for system, coords in SYSTEMS.items():
-        # two families of fields: generic undefined functions of the three coordinates, and generic constants (code that special-cases
-        # syntactically constant components must still agree with the reference, e.g. div of a constant radial field is not 0)
-        families = {
-            "generic": (fun("f", coords), [fun(f"F{k}", coords) for k in range(3)]),
-            "constant": (var("c"), [var(f"c{k}") for k in range(3)]),
-        }
-        if run.tier == "thorough":
-            # fields whose components depend on a single coordinate each (all three assignments of coordinates to components that
-            # are cyclic shifts), a field with one generic and two constant components, and a scalar field of one coordinate
-            for sh in range(3):
-                families[f"single-coordinate-shift{sh}"] = (fun("f", (coords[sh], )), [fun(f"F{k}", (coords[(k + sh) % 3], )) for k in range(3)])
-            for g_ in range(3):
-                families[f"one-generic-{g_}"] = (fun("f", coords[:2]), [fun(f"F{k}", coords) if k == g_ else var(f"c{k}") for k in range(3)])
-        for fam, (f, Fall) in families.items():
-            # O1
-            g = apply_operator(tree, "gradient_operator", system, f)
-            if isinstance(g, Raised) or not (isinstance(g, list) and len(g) <= 3):
-                run.violate("O1", f"{MOD}:gradient_operator:{system}:{fam}:result", mod, grad, f"gradient of a {fam} scalar field in {system.lower()} coordinates {'raises ' + g.exc if isinstance(g, Raised) else 'is not a vector'}")
-                continue
-            g = pad(g)
-            for i, (a, b) in enumerate(zip(g, ref_grad(f, system))):
-                run.ob("O1", f"grad/{system}/{fam}[{i}]")
-                if not same(normalize(a), normalize(b)):
-                    run.violate("O1", f"{MOD}:gradient_operator:{system}[{i}]", mod, grad,
-                                f"component {i} ({coords[i]}) of the {system.lower()} gradient of a {fam} field is {normalize(a)!r}; the reference d f/d{coords[i]} / h_{i} is {normalize(b)!r}")
-            for ncomp in range(4):
-                F = Fall[:ncomp]
-                Fp = pad(F)
-                # O2
-                d = apply_operator(tree, "divergence_operator", system, F)
-                run.ob("O2", f"div/{system}/{fam}/{ncomp}")
-                if isinstance(d, Raised) or isinstance(d, list):
-                    run.violate("O2", f"{MOD}:divergence_operator:{system}:{ncomp}:result", mod, div, f"divergence of a {ncomp}-component {fam} field in {system.lower()} coordinates {'raises ' + d.exc if isinstance(d, Raised) else 'is not a scalar'}")
-                elif not same(normalize(d), normalize(ref_div(Fp, system))):
-                    run.violate("O2", f"{MOD}:divergence_operator:{system}", mod, div,
-                                f"the {system.lower()} divergence of a {ncomp}-component {fam} field differs from the reference of the zero-padded field: "
-                                f"got {normalize(d)!r}, reference {normalize(ref_div(Fp, system))!r}")
-                # O3
-                c = apply_operator(tree, "curl_operator", system, F)
-                if isinstance(c, Raised) or not isinstance(c, list):
-                    run.ob("O3", f"curl/{system}/{fam}/{ncomp}")
-                    run.violate("O3", f"{MOD}:curl_operator:{system}:{ncomp}:result", mod, curl, f"curl of a {ncomp}-component {fam} field in {system.lower()} coordinates {'raises ' + c.exc if isinstance(c, Raised) else 'is not a vector'}")
-                    continue
-                c = pad(c)
-                for i, (a, b) in enumerate(zip(c, ref_curl(Fp, system))):
-                    run.ob("O3", f"curl/{system}/{fam}/{ncomp}[{i}]")
-                    if not same(normalize(a), normalize(b)):
-                        run.violate("O3", f"{MOD}:curl_operator:{system}[{i}]", mod, curl,
-                                    f"component {i} ({coords[i]}) of the {system.lower()} curl of a {ncomp}-component {fam} field is {normalize(a)!r}; "
-                                    f"the reference for the zero-padded field is {normalize(b)!r}")
-                # O4: div(curl F) = 0 with the repository's own formulas composed
-                dc = apply_operator(tree, "divergence_operator", system, c)
-                run.ob("O4", f"div(curl)/{system}/{fam}/{ncomp}")
-                if isinstance(dc, Raised) or isinstance(dc, list) or not same(normalize(dc), C(0)):
-                    run.violate("O4", f"{MOD}:div(curl):{system}", mod, div, f"div(curl F) is not zero for a {ncomp}-component {fam} field in {system.lower()} coordinates: "
-                                f"{dc.exc if isinstance(dc, Raised) else (normalize(dc) if not isinstance(dc, list) else dc)!r}")
-            cg = apply_operator(tree, "curl_operator", system, g)
-            if isinstance(cg, Raised) or not isinstance(cg, list):
-                run.violate("O4", f"{MOD}:curl(grad):{system}:result", mod, curl, "curl(grad f) cannot be formed")
-            else:
-                for i, a in enumerate(pad(cg)):
-                    run.ob("O4", f"curl(grad)/{system}/{fam}[{i}]")
-                    if not same(normalize(a), C(0)):
-                        run.violate("O4", f"{MOD}:curl(grad):{system}[{i}]", mod, curl, f"curl(grad f) has non-zero component {i} in {system.lower()} coordinates for a {fam} field: {normalize(a)!r}")
-            if fam == "generic":
-                run.sample({"system": system, "gradient": [repr(normalize(x)) for x in g], "divergence(3 components)": repr(normalize(apply_operator(tree, "divergence_operator", system, Fall)))})
+    for cname, mname in (("ScalarField", "symplyphysics.core.fields.scalar_field"), ("VectorField", "symplyphysics.core.fields.vector_field")):
+        cm = run.src.need(mname)
+        OperatorReader.field_classes[cname] = next((c for c in cm.tree.body if isinstance(c, ast.ClassDef) and c.name == cname), None)
+    for stored in ("callable", "value"):
+      STORED[0] = stored
+      for system, coords in SYSTEMS.items():
+          # two families of fields: generic undefined functions of the three coordinates, and generic constants (code that special-cases
+          # syntactically constant components must still agree with the reference, e.g. div of a constant radial field is not 0)
+          families = {
+              "generic": (fun("f", coords), [fun(f"F{k}", coords) for k in range(3)]),
+              "constant": (var("c"), [var(f"c{k}") for k in range(3)]),
+          }
+          if run.tier == "thorough":
+              # fields whose components depend on a single coordinate each (all three assignments of coordinates to components that
+              # are cyclic shifts), a field with one generic and two constant components, and a scalar field of one coordinate
+              for sh in range(3):
+                  families[f"single-coordinate-shift{sh}"] = (fun("f", (coords[sh], )), [fun(f"F{k}", (coords[(k + sh) % 3], )) for k in range(3)])
+              for g_ in range(3):
+                  families[f"one-generic-{g_}"] = (fun("f", coords[:2]), [fun(f"F{k}", coords) if k == g_ else var(f"c{k}") for k in range(3)])
+          for fam, (f, Fall) in families.items():
+              # O1
+              g = apply_operator(tree, "gradient_operator", system, f)
+              if isinstance(g, Raised) or not (isinstance(g, list) and len(g) <= 3):
+                  run.violate("O1", f"{MOD}:gradient_operator:{system}:{fam}:result", mod, grad, f"gradient of a {fam} scalar field in {system.lower()} coordinates {'raises ' + g.exc if isinstance(g, Raised) else 'is not a vector'}")
+                  continue
+              g = pad(g)
+              for i, (a, b) in enumerate(zip(g, ref_grad(f, system))):
+                  run.ob("O1", f"grad/{system}/{fam}/{stored}[{i}]")
+                  if not same(normalize(a), normalize(b)):
+                      run.violate("O1", f"{MOD}:gradient_operator:{system}[{i}]", mod, grad,
+                                  f"component {i} ({coords[i]}) of the {system.lower()} gradient of a {fam} field is {normalize(a)!r}; the reference d f/d{coords[i]} / h_{i} is {normalize(b)!r}")
+              for ncomp in range(4):
+                  F = Fall[:ncomp]
+                  Fp = pad(F)
+                  # O2
+                  d = apply_operator(tree, "divergence_operator", system, F)
+                  run.ob("O2", f"div/{system}/{fam}/{stored}/{ncomp}")
+                  if isinstance(d, Raised) or isinstance(d, list):
+                      run.violate("O2", f"{MOD}:divergence_operator:{system}:{ncomp}:result", mod, div, f"divergence of a {ncomp}-component {fam} field in {system.lower()} coordinates {'raises ' + d.exc if isinstance(d, Raised) else 'is not a scalar'}")
+                  elif not same(normalize(d), normalize(ref_div(Fp, system))):
+                      run.violate("O2", f"{MOD}:divergence_operator:{system}", mod, div,
+                                  f"the {system.lower()} divergence of a {ncomp}-component {fam} field differs from the reference of the zero-padded field: "
+                                  f"got {normalize(d)!r}, reference {normalize(ref_div(Fp, system))!r}")
+                  # O3
+                  c = apply_operator(tree, "curl_operator", system, F)
+                  if isinstance(c, Raised) or not isinstance(c, list):
+                      run.ob("O3", f"curl/{system}/{fam}/{ncomp}")
+                      run.violate("O3", f"{MOD}:curl_operator:{system}:{ncomp}:result", mod, curl, f"curl of a {ncomp}-component {fam} field in {system.lower()} coordinates {'raises ' + c.exc if isinstance(c, Raised) else 'is not a vector'}")
+                      continue
+                  c = pad(c)
+                  for i, (a, b) in enumerate(zip(c, ref_curl(Fp, system))):
+                      run.ob("O3", f"curl/{system}/{fam}/{stored}/{ncomp}[{i}]")
+                      if not same(normalize(a), normalize(b)):
+                          run.violate("O3", f"{MOD}:curl_operator:{system}[{i}]", mod, curl,
+                                      f"component {i} ({coords[i]}) of the {system.lower()} curl of a {ncomp}-component {fam} field is {normalize(a)!r}; "
+                                      f"the reference for the zero-padded field is {normalize(b)!r}")
+                  # O4: div(curl F) = 0 with the repository's own formulas composed
+                  dc = apply_operator(tree, "divergence_operator", system, c)
+                  run.ob("O4", f"div(curl)/{system}/{fam}/{stored}/{ncomp}")
+                  if isinstance(dc, Raised) or isinstance(dc, list) or not same(normalize(dc), C(0)):
+                      run.violate("O4", f"{MOD}:div(curl):{system}", mod, div, f"div(curl F) is not zero for a {ncomp}-component {fam} field in {system.lower()} coordinates: "
+                                  f"{dc.exc if isinstance(dc, Raised) else (normalize(dc) if not isinstance(dc, list) else dc)!r}")
+              cg = apply_operator(tree, "curl_operator", system, g)
+              if isinstance(cg, Raised) or not isinstance(cg, list):
+                  run.violate("O4", f"{MOD}:curl(grad):{system}:result", mod, curl, "curl(grad f) cannot be formed")
+              else:
+                  for i, a in enumerate(pad(cg)):
+                      run.ob("O4", f"curl(grad)/{system}/{fam}/{stored}[{i}]")
+                      if not same(normalize(a), C(0)):
+                          run.violate("O4", f"{MOD}:curl(grad):{system}[{i}]", mod, curl, f"curl(grad f) has non-zero component {i} in {system.lower()} coordinates for a {fam} field: {normalize(a)!r}")
+              if fam == "generic":
+                  run.sample({"system": system, "gradient": [repr(normalize(x)) for x in g], "divergence(3 components)": repr(normalize(apply_operator(tree, "divergence_operator", system, Fall)))})
+
+    STORED[0] = "callable"
     # curl of more than three components is refused
     run.ob("O3", "curl/4-components-refused")
     r4 = apply_operator(tree, "curl_operator", "CARTESIAN", [var(f"c{k}") for k in range(4)])
